@@ -2,7 +2,7 @@
 Engine `Ops` (C09, C10): arithmetic of `Scalar` and `Array` objects with plain numbers, numpy arrays
 and each other, written after the Python function by function.
 
-Modelled code (as it is in /repo now, repairs 82f5449, bbf2089, 12bb4de included):
+Modelled code (as it is in /repo now, repairs 82f5449, bbf2089, 12bb4de, 1e63d4c included):
 * `barril/_util/types_.py`      `IsNumber`
 * `barril/units/_scalar.py`     `Scalar._DoOperation`, the ten operator methods
 * `barril/units/_array.py`      `Array._DoOperation` (number / ndarray branches, length check, vectorised
@@ -135,19 +135,25 @@ def mapE {α β : Type} (f : α → Except ErrKind β) : List α → Except ErrK
 
 /-! ### `_MatchQuantities` -/
 
-/-- `_ConvertMatchingExp(quantity_type, from_unit, to_unit, exp, ·)` -/
-def convertMatchingExp (env : Env) (qt fromU toU : Sym) (exp : Int) : Except ErrKind Tr :=
-  if exp == 1 || fromU == toU then .ok (env.convert qt fromU toU)
+/-- `_ConvertMatchingExp(quantity_type, from_unit, to_unit, exp, ·, in_derived)` (repair 1e63d4c): the
+plain conversion for the same unit and for exponent 1 outside a derived quantity; inside a derived
+quantity, or with another exponent, a unit is a factor of a product and the value is scaled by the
+unit ratio `Convert(1.0) - Convert(0.0)` raised to the exponent (exponent 1 without an offset: the
+plain conversion is that scaling) -/
+def convertMatchingExp (env : Env) (qt fromU toU : Sym) (exp : Int) (inDerived : Bool) : Except ErrKind Tr :=
+  if fromU == toU || (exp == 1 && !inDerived) then .ok (env.convert qt fromU toU)
   else
-    match env.convert qt fromU toU 1 with
+    match env.convert qt fromU toU 0 with
     | .error e => .error e
-    | .ok c1 =>
-      match env.convert qt fromU toU 0 with
-      | .error e => .error e
-      | .ok c0 =>
-        match powInt (c1 - c0) exp with
+    | .ok zero =>
+      if exp == 1 && zero == 0 then .ok (env.convert qt fromU toU)
+      else
+        match env.convert qt fromU toU 1 with
         | .error e => .error e
-        | .ok factor => .ok (fun v => .ok (v * factor))
+        | .ok c1 =>
+          match powInt (c1 - zero) exp with
+          | .error e => .error e
+          | .ok factor => .ok (fun v => .ok (v * factor))
 
 /-- `quantity_types_found_to_used_unit` -/
 abbrev Found := List (Sym × Sym)
@@ -157,8 +163,8 @@ def Found.get (f : Found) (qt : Sym) : Option Sym :=
   | [] => none
   | (k, u) :: rest => if k == qt then some u else Found.get rest qt
 
-/-- the inner loop of `_MatchQuantities` over one dict -/
-def matchDict (env : Env) : Found → List Entry → Tr → Except ErrKind (Found × List Entry × Tr)
+/-- the inner loop of `_MatchQuantities` over one dict `c`; `inDerived` is `len(c) > 1` -/
+def matchDict (env : Env) (inDerived : Bool) : Found → List Entry → Tr → Except ErrKind (Found × List Entry × Tr)
   | found, [], tr => .ok (found, [], tr)
   | found, e :: es, tr =>
     match env.qtype e.cat with
@@ -166,24 +172,24 @@ def matchDict (env : Env) : Found → List Entry → Tr → Except ErrKind (Foun
     | .ok qt =>
       match found.get qt with
       | none =>
-        match matchDict env ((qt, e.unit) :: found) es tr with
+        match matchDict env inDerived ((qt, e.unit) :: found) es tr with
         | .error err => .error err
         | .ok (f', es', tr') => .ok (f', e :: es', tr')
       | some used =>
-        match convertMatchingExp env qt e.unit used e.exp with
+        match convertMatchingExp env qt e.unit used e.exp inDerived with
         | .error err => .error err
         | .ok step =>
-          match matchDict env found es (tr.andThen step) with
+          match matchDict env inDerived found es (tr.andThen step) with
           | .error err => .error err
           | .ok (f', es', tr') => .ok (f', { e with unit := used } :: es', tr')
 
 /-- `_MatchQuantities(c1, c2, value1, value2)` -/
 def matchQuantities (env : Env) (c1 c2 : List Entry) :
     Except ErrKind (List Entry × List Entry × Tr × Tr) :=
-  match matchDict env [] c1 Tr.ident with
+  match matchDict env (decide (1 < c1.length)) [] c1 Tr.ident with
   | .error e => .error e
   | .ok (f1, c1', t1) =>
-    match matchDict env f1 c2 Tr.ident with
+    match matchDict env (decide (1 < c2.length)) f1 c2 Tr.ident with
     | .error e => .error e
     | .ok (_, c2', t2) => .ok (c1', c2', t1, t2)
 
